@@ -1,0 +1,11 @@
+//! Verification hooks (feature `verif-hooks`): re-exports of crate-private items
+//! so that an external harness can drive them. No behaviour lives here.
+
+#[cfg(feature = "client")]
+pub use crate::happy_eyeballs::{EyeballSet, HappyEyeballsError};
+
+#[cfg(feature = "client")]
+pub use crate::client::conn::dns::verif_hooks::{from_binding, set_port, sort_preferred};
+
+#[cfg(feature = "server")]
+pub use crate::rewind::Rewind;
